@@ -691,6 +691,10 @@ fn write_segments(s: &str) {
     }
 }
 
+fn live_str() -> String {
+    live_tracked().iter().map(|(p, s, a)| format!("{p}:{s}:{a}")).collect::<Vec<_>>().join(",")
+}
+
 pub fn main_loop(modules: &[Module]) {
     unsafe {
         CALLS.reserve(1 << 20);
@@ -734,7 +738,7 @@ pub fn main_loop(modules: &[Module]) {
             }
             "LIVE" => {
                 check_redzones();
-                format!("OK live={} ev={}", live_tracked().iter().map(|(p, s, a)| format!("{p}:{s}:{a}")).collect::<Vec<_>>().join(","), take_events())
+                format!("OK live={} ev={}", live_str(), take_events())
             }
             // EXPORT <module> <k> <retsize> <flat args,> <script words,> <segments to write first>
             "EXPORT" => match find(f[1]) {
@@ -762,8 +766,8 @@ pub fn main_loop(modules: &[Module]) {
                     let extra = if retsize > 0 { vec![(ret as usize, retsize)] } else { vec![] };
                     snapshot(&extra, &mut segs);
                     let under = unsafe { SPOS != SLEN };
-                    format!("OK ret={} log={} ev={} calls={} notes={}{} segs={}", ret, take_log(), take_events(), unsafe { CALLS.clone() }, take_notes(),
-                        if under { "script-not-consumed;" } else { "" }, segs)
+                    format!("OK ret={} log={} ev={} calls={} notes={}{} live={} segs={}", ret, take_log(), take_events(), unsafe { CALLS.clone() }, take_notes(),
+                        if under { "script-not-consumed;" } else { "" }, live_str(), segs)
                 }
             },
             // POST <module> <k> <ret word>
@@ -780,7 +784,7 @@ pub fn main_loop(modules: &[Module]) {
                     marker(M_POST_END);
                     unsafe { TRACK = false };
                     check_redzones();
-                    format!("OK ev={} calls={} notes={}", take_events(), unsafe { CALLS.clone() }, take_notes())
+                    format!("OK ev={} calls={} notes={} live={}", take_events(), unsafe { CALLS.clone() }, take_notes(), live_str())
                 }
             },
             // IMPORT <module> <k> <wasm module> <wasm name> <indirect params size> <flat|mem|none> <ret flat word|ret image hex>
@@ -816,8 +820,8 @@ pub fn main_loop(modules: &[Module]) {
                     let used = unsafe { EXPECT.as_ref().map(|e| e.used).unwrap_or(false) };
                     unsafe { EXPECT = None };
                     let under = unsafe { SPOS != SLEN };
-                    format!("OK log={} ev={} calls={} notes={}{}{} segs={}", take_log(), take_events(), unsafe { CALLS.clone() }, take_notes(),
-                        if used { "" } else { "import-not-called;" }, if under { "script-not-consumed;" } else { "" }, unsafe { SNAP.clone() })
+                    format!("OK log={} ev={} calls={} notes={}{}{} live={} segs={}", take_log(), take_events(), unsafe { CALLS.clone() }, take_notes(),
+                        if used { "" } else { "import-not-called;" }, if under { "script-not-consumed;" } else { "" }, live_str(), unsafe { SNAP.clone() })
                 }
             },
             "QUIT" => break,
